@@ -173,8 +173,9 @@ impl Newton<Cmplx> {""", """            let dx = func(current) / deriv;
 
 impl Newton<Cmplx> {""", "eval-count")
 seed("c17-ok-wrong-test", "C17", NW, """            let dx: Vec64 = j.solve_basic( &f );
+            let step = dx.norm_inf();
             current -= dx;
-            if max_residual <= self.tol {
+            if step <= self.tol {
                 return Ok( current )
             }
         }
@@ -184,8 +185,9 @@ seed("c17-ok-wrong-test", "C17", NW, """            let dx: Vec64 = j.solve_basi
     /// Solve the vector equation via Newton iteration using the exact Jacobian
     #[inline] 
     pub fn solve_jacobian(&self, func: &dyn Fn(Vec64) -> Vec64, """, """            let dx: Vec64 = j.solve_basic( &f );
+            let step = dx.norm_inf();
             current -= dx;
-            if max_residual <= self.delta {
+            if step <= self.delta {
                 return Ok( current )
             }
         }
@@ -195,6 +197,40 @@ seed("c17-ok-wrong-test", "C17", NW, """            let dx: Vec64 = j.solve_basi
     /// Solve the vector equation via Newton iteration using the exact Jacobian
     #[inline] 
     pub fn solve_jacobian(&self, func: &dyn Fn(Vec64) -> Vec64, """, "ok-tested")
+seed("c17-residual-criterion", "C17", NW, """            let f: Vec64 = func( current.clone() );
+            let mut j = Mat64::jacobian( current.clone(), func, self.delta );
+            let dx: Vec64 = j.solve_basic( &f );
+            let step = dx.norm_inf();
+            current -= dx;
+            if step <= self.tol {""", """            let f: Vec64 = func( current.clone() );
+            let max_residual = f.norm_inf();
+            let mut j = Mat64::jacobian( current.clone(), func, self.delta );
+            let dx: Vec64 = j.solve_basic( &f );
+            current -= dx;
+            if max_residual <= self.tol {""", "criterion/", "the original defect (finding 24)")
+seed("c17-step-of-other-vector", "C17", NW, """            let f: Vec64 = func( current.clone() );
+            let mut j = Mat64::jacobian( current.clone(), func, self.delta );
+            let dx: Vec64 = j.solve_basic( &f );
+            let step = dx.norm_inf();
+            current -= dx;
+""", """            let f: Vec64 = func( current.clone() );
+            let mut j = Mat64::jacobian( current.clone(), func, self.delta );
+            let dx: Vec64 = j.solve_basic( &f );
+            let step = self.guess.norm_inf();
+            current -= dx;
+""", "criterion/")
+seed("n-c17-step-inline", "C17", NW, """            let mut j: Mat64 = jac( current.clone() ); 
+            let dx: Vec64 = j.solve_basic( &f );
+            let step = dx.norm_inf();
+            current -= dx;
+            if step <= self.tol {
+                return Ok( current )
+            }""", """            let mut j: Mat64 = jac( current.clone() ); 
+            let dx: Vec64 = j.solve_basic( &f );
+            current -= dx.clone();
+            if dx.norm_inf() <= self.tol {
+                return Ok( current )
+            }""", "SILENT", "neutral: the step norm taken after the update from a kept copy")
 seed("c17-deriv-forward-diff", "C17", NW, """            let deriv = ( func( current + self.delta ) - 
                           func( current - self.delta ) ) / ( 2.0 * self.delta );
             let dx""", """            let deriv = ( func( current + self.delta ) - 
@@ -218,8 +254,10 @@ impl Newton<Cmplx> {""", "failure-carries-iterate")
 seed("c17-jacobian-at-guess", "C17", NW, "let mut j = Mat64::jacobian( current.clone(), func, self.delta );", "let mut j = Mat64::jacobian( self.guess.clone(), func, self.delta );", "step")
 seed("c17-update-plus", "C17", NW, """            let mut j: Mat64 = jac( current.clone() ); 
             let dx: Vec64 = j.solve_basic( &f );
+            let step = dx.norm_inf();
             current -= dx;""", """            let mut j: Mat64 = jac( current.clone() ); 
             let dx: Vec64 = j.solve_basic( &f );
+            let step = dx.norm_inf();
             current += dx;""", "ok-tested")
 
 
